@@ -241,14 +241,29 @@ class NpShim:
         return _np.allclose(a, b, rtol=rtol, atol=atol, **k)
 
     def around(self, x, decimals=0, **k):
+        """nearest multiple of 10^-decimals; on symbolic data the result is K / 10^d with an
+        integer atom K, |x 10^d - K| <= 1/2 (ties unspecified)"""
+        if isinstance(x, Sym):
+            scale = 10 ** int(decimals)
+            return Sym(core.round_node(core.mul(core.C(scale), x.n))) / scale
         if _has_sym(x):
-            raise EngineLimit('np.around of symbolic value')
+            a = _np.asarray(x, dtype=object)
+            out = _np.empty(a.shape, dtype=object)
+            for idx in _np.ndindex(a.shape):
+                out[idx] = self.around(a[idx], decimals)
+            return out
         return _np.around(x, decimals, **k)
     round = around
 
     def floor(self, x, **k):
+        if isinstance(x, Sym):
+            return Sym(core.floor_node(x.n))
         if _has_sym(x):
-            raise EngineLimit('np.floor of symbolic value')
+            a = _np.asarray(x, dtype=object)
+            out = _np.empty(a.shape, dtype=object)
+            for idx in _np.ndindex(a.shape):
+                out[idx] = self.floor(a[idx])
+            return out
         return _np.floor(x, **k)
 
     def ceil(self, x, **k):
